@@ -5,6 +5,7 @@ import Nstd.Life.LemmasSrc
 import Nstd.Life.LemmasBlk
 import Nstd.Life.LemmasFault
 import Nstd.Life.LemmasCopy
+import Nstd.Life.LemmasSetSelf
 /-
   Property theorems of the Life area.
 
@@ -227,6 +228,16 @@ theorem list_insert_own_element_as_if_copied (st : State) (v : Nat) (pos : Optio
       (by simp [compile, guard', hg])
       (put_value_as_if_copied st _ pos _ _ l x hr)
   · simp [stepRes, compile, guard', hg, ResEq]
+
+/-- `s.append(s)` (HashSet): nothing changes - what appending an independent copy of s does (all keys present). -/
+theorem set_append_self_noop (ops : List Op) (v : Nat) : step (run init ops) (.sAppendSet v v) = run init ops :=
+  sAppendSelf_noop (reach_ok ops).1 (Ops.allAlive_reach ops) v
+
+/-- `s.remove(s)` (HashSet): terminates without fault and leaves the empty set - what removing an independent
+    copy of s does. -/
+theorem set_remove_self_empties (ops : List Op) (v : Nat) (hv : v ≤ 1) :
+    ∃ s, stepRes (run init ops) (.sRemoveSet v v) = .ok s ∧ absNode s ⟨.S, v⟩ = [] :=
+  sRemoveSelf_empty (reach_ok ops).1 (Ops.allAlive_reach ops) v hv
 
 /-- non-vacuity of the alias theorems: a reachable state with a full array (size 3 = capacity 3) and a list -/
 def aliasOps : List Op := [.aAppend 0 5, .aAppend 0 6, .aAppend 0 7, .lInsert 0 none 1, .lInsert 0 none 2]
